@@ -4,6 +4,7 @@ import (
 	"fmt"
 	"runtime/debug"
 	"strings"
+	"sync"
 	"testing"
 	"testing/synctest"
 	"time"
@@ -29,6 +30,8 @@ type simRun struct {
 	Hooks    map[string]int
 }
 
+var hookMu sync.Mutex
+
 func inBubble(tape *kernel.Tape, body func(s *kernel.Sched)) (res simRun) {
 	res.Hooks = map[string]int{}
 	func() {
@@ -53,7 +56,9 @@ func inBubble(tape *kernel.Tape, body func(s *kernel.Sched)) (res simRun) {
 				if !strings.HasPrefix(site, "zngio.") {
 					return
 				}
+				hookMu.Lock()
 				res.Hooks[site]++
+				hookMu.Unlock()
 				s.Yield(fmt.Sprintf("%s#%d", site, key), site, key)
 			}
 			defer func() { simhook.Handler = nil }()
